@@ -35,6 +35,10 @@ fn main() {
         .filter_map(|x| x.trim().parse().ok())
         .collect();
     let progs = pgen::generate(seed, n);
+    let leftover = pgen::LEFTOVER.with(|l| l.borrow().clone());
+    if !leftover.is_empty() {
+        println!("cargo::warning=dx_core generator could not place: {}", leftover.join(", "));
+    }
     for k in 0..SHARDS {
         let mut s = String::new();
         s += &format!("pub const GEN_SEED: u64 = {seed};\npub const GEN_N: usize = {n};\npub const SHARD: usize = {k};\n\n");
